@@ -478,7 +478,7 @@ func ruleStartOnce(c *chk.Ctx) {
 		}
 		n++
 		fa, _ := st.Addr.(*ssa.FieldAddr)
-		_, fresh := fa.X.(*ssa.Alloc)
+		fresh := fa != nil && freshOwner(c, fa.X)
 		c.Check(fresh, "RUN.startOnce", st.Parent(), "client install channel", st.Pos(),
 			"channel installed only into a freshly allocated Client (constructor)", "client channel installed outside the constructor")
 	}
